@@ -103,10 +103,17 @@ def marker_never_offered_rule(ctx: Ctx, rid: str):
         n += 1
         node = g.node_of(r)
 
+        res_m = local_resolver(avail.node)
+
         def not_marker(t, p):
             t_ = t.replace(" ", "")
             if "scoreboard[" not in t_:
-                return False
+                # the entry may have been read into a local first:  entry = self.scoreboard[sb_idx]
+                e_ = lit_compare(t)
+                arg0 = e_.args[0] if isinstance(e_, ast.Call) and norm(e_.func) == "isinstance" and e_.args else (
+                    e_.left if isinstance(e_, ast.Compare) else None)
+                if not (isinstance(arg0, ast.Name) and any("scoreboard[" in norm(v).replace(" ", "") for v in res_m(arg0))):
+                    return False
             if t_.startswith("isinstance(") and t_.endswith(",int)"):
                 return not p
             if t_.startswith("isinstance(") and t_.endswith(",Task)"):
